@@ -4,7 +4,13 @@ PROPS["C17"] = {
     "rule": "cases = (code unit x hex casing x position), unpaired-surrogate contexts, surrogate pairs, 1- and 2-byte strings as value and key; "
             "non-trivial = code unit >= 0x80, any surrogate case, or a byte string in which the serializer had to escape something; distinct by case key",
     "assumptions": ["reference UTF-8 encoder and escaper in checks/nx_unicode.hpp are written from RFC 3629 / the property statement",
-                    "ARDUINOJSON_DECODE_UNICODE=1 (default)"],
-    "quick": [{"src": "checks/nx_unicode.cpp", "mode": "unicode", "deps": ["checks/nx_unicode.hpp"]}],
-    "thorough": [{"src": "checks/nx_unicode.cpp", "mode": "unicode", "deps": ["checks/nx_unicode.hpp"]}],
+                    "ARDUINOJSON_DECODE_UNICODE=1 (default); host build, a build with -funsigned-char and a build with the Arduino options (PROGMEM tables)"],
+    "quick": [{"src": "checks/nx_unicode.cpp", "mode": "unicode", "deps": ["checks/nx_unicode.hpp"]},
+              # plain char unsigned (ARM, ESP8266/ESP32, RISC-V): the sign of a byte >= 0x80 is different there
+              {"src": "checks/nx_unicode.cpp", "mode": "unicode", "flavour": "sanuchar", "deps": ["checks/nx_unicode.hpp"]},
+              # the Arduino configuration: tables in PROGMEM (repository stubs)
+              {"src": "checks/nx_unicode.cpp", "mode": "unicode", "arduino": True, "deps": ["checks/nx_unicode.hpp"]}],
+    "thorough": [{"src": "checks/nx_unicode.cpp", "mode": "unicode", "deps": ["checks/nx_unicode.hpp"]},
+                 {"src": "checks/nx_unicode.cpp", "mode": "unicode", "flavour": "sanuchar", "deps": ["checks/nx_unicode.hpp"]},
+                 {"src": "checks/nx_unicode.cpp", "mode": "unicode", "arduino": True, "deps": ["checks/nx_unicode.hpp"]}],
 }
